@@ -993,6 +993,10 @@ pub struct Walk {
     pub no_auto_compile: bool,
     /// the clients' `output` call suspends this many times before completing
     pub output_yields: u8,
+    /// events that are postponed (once) until no other coordination event is enabled
+    pub starve: Vec<Ev>,
+    /// ... and not even an MPC message
+    pub starve_past_msgs: bool,
 }
 
 pub struct WalkResult {
@@ -1029,6 +1033,7 @@ pub fn run_walk(n: usize, concurrency: usize, policies: Vec<Vec<Policy>>, walk: 
                 let mut d = Driver::new(w, msg_policy);
                 d.quiesce().await;
                 let mut steps = vec![];
+                let mut starved: Vec<Ev> = walk.starve.clone();
                 let mut pos = 0usize; // number of non-injected events applied
                 let mut pref = 0usize;
                 let mut total = 0usize;
@@ -1050,6 +1055,21 @@ pub fn run_walk(n: usize, concurrency: usize, policies: Vec<Vec<Policy>>, walk: 
                     if en.is_empty() || total >= walk.max_steps {
                         break;
                     }
+                    // starved events are held back while another coordination event (or, with
+                    // `starve_past_msgs`, any other event) is enabled; one-shot
+                    let held: Vec<Ev> = en.iter().filter(|e| starved.contains(e)).cloned().collect();
+                    let en: Vec<Ev> = if held.is_empty() {
+                        en
+                    } else {
+                        let free: Vec<Ev> = en.iter().filter(|e| !held.contains(e)).cloned().collect();
+                        let blocks = free.iter().any(|e| walk.starve_past_msgs || !matches!(e, Ev::Msg { .. }));
+                        if blocks {
+                            free
+                        } else {
+                            starved.retain(|e| *e != held[0]);
+                            vec![held[0].clone()]
+                        }
+                    };
                     // next preferred event that is enabled (skipping preferred events that can no longer happen)
                     let mut choice = None;
                     let mut k = pref;
